@@ -167,7 +167,7 @@ def shrink(case, budget_s=60.0):
         return cur
     cur["script"] = res["script"][:m[0] + 1] if m[0] >= 0 else res["script"][:1]   # explicit from now on
     cur.pop("script_seed", None)
-    same_faces = ("list", "tuple", "numpy", "from_arrays", "obj", "geogram", "rewrap", "copy", "copy_conn")
+    same_faces = ("list", "tuple", "numpy", "from_arrays", "obj", "geogram", "rewrap", "copy", "copy_conn", "edges_explicit")
     if cur.get("route", "list") != "list":
         # does the failure depend on the construction route at all?
         plain = dict(cur, route="list", nv=res["nv"], faces=res["faces"])
@@ -217,7 +217,7 @@ def classify(case, msg, res=None):
 
 
 # ---------------------------------------------------------------------- the check
-ROUTE_WEIGHTS = [("list", 30), ("tuple", 5), ("numpy", 6), ("from_arrays", 4), ("obj", 6), ("medit", 5), ("geogram", 5),
+ROUTE_WEIGHTS = [("edges_explicit", 7), ("list", 25), ("tuple", 5), ("numpy", 6), ("from_arrays", 4), ("obj", 6), ("medit", 5), ("geogram", 5),
                  ("rewrap", 12), ("triangulate", 7), ("loop", 4), ("copy", 5), ("copy_conn", 5), ("merge", 6)]
 
 
@@ -232,7 +232,10 @@ def gen_case(rng, max_faces):
     if route == "from_arrays":           # needs one arity: grids / triangulated seeds without edits are the usual source
         size = rng.choice(["tiny", "mid"])
     mesh, info = G.gen_mesh(rng, size=size, max_faces=mf)
-    return dict(mesh, route=route, sort=rng.random() < 0.65, script_seed=rng.randrange(1 << 30), info=info)
+    return dict(mesh, route=route, sort=rng.random() < 0.65, script_seed=rng.randrange(1 << 30), info=info,
+                argtype=rng.choice(["int", "int", "np64", "np32"]), decoy=rng.random() < 0.25,
+                collide=rng.choice([None, None, None, "bool", "float"]), dupwarn=rng.random() < 0.5,
+                coords=rng.choice(["distinct", "distinct", "zero"]))
 
 
 def small_meshes(nv=5, max_faces=4):
@@ -262,7 +265,7 @@ def sweep_case(rng, mesh, sort):
 
 def run(ctx):
     quick = ctx.tier == "quick"
-    n_cases = 600 if quick else 4000
+    n_cases = 600 if quick else 3200
     max_faces = 80 if quick else 140
     ctx.rule = ("each surface built through one of 13 construction routes (bare lists, tuples, numpy rows, from_arrays, save+load "
                 ".obj/.mesh/.geogram_ascii, RawMeshData(mesh) re-wrap with appended faces, SurfaceSubdivision triangulate / "
@@ -292,6 +295,11 @@ def run(ctx):
                 corpus.append(json.load(open(os.path.join(cdir, f))))
     cases = corpus + [gen_case(ctx.rng, max_faces) for _ in range(n_cases)]
     if not quick:
+        # a few surfaces with more than 256 faces / corners / edges (identity vs equality of small ints), bare-list route
+        for _ in range(10):
+            mesh, info = G.gen_mesh(ctx.rng, size="big", max_faces=520)
+            cases.append(dict(mesh, route="list", sort=ctx.rng.random() < 0.65, script_seed=ctx.rng.randrange(1 << 30), info=info,
+                              argtype=ctx.rng.choice(["int", "np64"]), decoy=False, collide=None, dupwarn=False, coords="distinct"))
         sm = small_meshes()
         ctx.notes.append("support sweep (bounded, not the theorem): all %d oriented manifold triangle surfaces with <= 4 faces "
                          "over 5 labelled vertices, each with sorting on and off" % len(sm))
@@ -308,6 +316,15 @@ def run(ctx):
             ctx.case_seen([c["faces"], c.get("route"), c["sort"]], nontrivial=False)
             continue
         ctx.count("route=%s" % r.get("route"))
+        ctx.count("ids as %s" % c.get("argtype", "int"))
+        if c.get("collide"):
+            ctx.count("colliding 'border' attribute (%s), duplicate warning %s" % (c["collide"], c.get("dupwarn")))
+        if c.get("decoy"):
+            ctx.count("second mesh in the session")
+        if c.get("coords") == "zero":
+            ctx.count("all vertices at the origin")
+        if c.get("info", {}).get("spread"):
+            ctx.count("vertex ids beyond 256")
         if r.get("note"):
             ctx.count("route output not manifold -> rebuilt from the bare list")
         fin = {"nv": r["nv"], "faces": r["faces"]}
